@@ -11,16 +11,39 @@ Proof. exact plain_verbs. Qed.
 Print Assumptions C18_plain_verbs.
 
 (* %+v of every errdef error (native or restored; cause tree of any shape and depth): the
-   text contains, as non-overlapping substrings in this order, for the error and then for
-   every node of its cause tree in depth-first pre-order: the message, "kind: K" when
-   present, "fields:" and every field name, "stack:" and every frame's function and
-   file:line, and the causes header carrying the number of children. *)
-Theorem C18_complete_in_order : forall m e,
+   text starts with the message and then contains, as non-overlapping substrings in this
+   order, each at the start of a line with the indentation of its depth (details of the
+   error itself at column 0; node labels of depth d at 2+4(d-1) columns, their details four
+   columns deeper), for the error and then for every node of its cause tree in depth-first
+   pre-order: the node's label "[i] message", "kind: K" when present, "fields:" and every
+   field as "name: value" (a multi-line value as "name: |" followed by each of its lines,
+   indented), "stack:" and every frame's function and file:line, for the frames configured
+   by StackSource the marked line "> <line>: <text of the frame's own line>", and the causes
+   header carrying the number of children.  [srcmap_wf]: no source line contains a newline. *)
+Theorem C18_complete_in_order : forall m e, srcmap_wf m = true ->
   (match e_def e with Some d => d_fmt d | None => None end) = None ->
   is_errdef_error e = true ->
-  in_order (tree_tokens (tree_of e)) (format_error m "+v" e) = true.
-Proof. exact plus_v_complete_in_order. Qed.
+  exists R, format_error m "+v" e = (err_msg e ++ R)%string /\ Embeds (plus_toks m e) R.
+Proof. exact plus_v_shows. Qed.
 Print Assumptions C18_complete_in_order.
+
+(* ... and the oracle's search accepts it *)
+Theorem C18_oracle_accepts : forall m e, srcmap_wf m = true ->
+  (match e_def e with Some d => d_fmt d | None => None end) = None ->
+  is_errdef_error e = true ->
+  shows_after_msg (err_msg e) (plus_toks m e) (format_error m "+v" e) = true.
+Proof. exact plus_v_complete_in_order. Qed.
+Print Assumptions C18_oracle_accepts.
+
+(* the marked snippet line is the frame's own line: the one numbered with the frame's line
+   and holding the text the harness read at that line *)
+Theorem C18_marks_own_line : forall ind w line t,
+  forallb (fun l => negb (has_nl l)) (w_lines w) = true -> marked_line w line = Some t ->
+  str_eqb (frame_source w line) "" = false /\
+  Embeds [(nl ++ ind ++ "    " ++ t)%string]
+    (String.concat "" (map (fun l => (nl ++ ind ++ "    " ++ l)%string) (split_nl (frame_source w line)))).
+Proof. exact embeds_snippet. Qed.
+Print Assumptions C18_marks_own_line.
 
 (* the substring search used by the oracle finds every ordered embedding *)
 Theorem C18_search_complete : forall ts s, Embeds ts s -> in_order ts s = true.
@@ -44,7 +67,7 @@ Print Assumptions C18_formatter_local.
 
 (* the oracle minus its snippet-count clause (which counts "> " in the whole output and
    is only valid for generated messages that do not contain it) follows from the correspondence *)
-Theorem C18_corr_implies_ok_partial : forall s given m o,
+Theorem C18_corr_implies_ok_partial : forall s given m o, srcmap_wf m = true ->
   (forall e, subject_err s given (o_subject o) = Some e -> is_errdef_error e = true) ->
   corr1 s given m o = true -> ok1_main s given m o = true.
 Proof. exact corr_implies_ok_main. Qed.
@@ -62,3 +85,17 @@ Example C18_example :
              ch 10; "stack:"; ch 10; "  f"; ch 10; "    x.go:3"; ch 10; "      2: two"; ch 10; "    > 3: three"; ch 10; "      4: four";
              ch 10; "causes: (1 error)"; ch 10; "  [1] leaf"]).
 Proof. vm_compute. reflexivity. Qed.
+
+Example C18_example_tokens :
+  let ka := {| k_id := 1; k_name := "a"; k_ty := 1 |} in
+  let v s := {| fv_repr := s; fv_plus := s; fv_json := s |} in
+  let fr := {| fr_func := "f"; fr_file := "x.go"; fr_line := 3 |} in
+  let p := [SDefine "k" [OField ka (v (cat ["l1"; ch 10; "l2"])); OSource 1 1]; SLeaf "leaf" "*errors.errorString";
+            SWrap 0 (Some 0) [fr]] in
+  let m := [("x.go", 3%Z, {| w_start := 2; w_lines := ["two"; "three"; "four"] |})] in
+  srcmap_wf m = true /\
+  option_map (plus_toks m) (nth 1 (s_errs (run p)) None) =
+  Some [cat [ch 10; "kind: k"]; cat [ch 10; "fields:"]; cat [ch 10; "  a: |"]; cat [ch 10; "    l1"]; cat [ch 10; "    l2"];
+        cat [ch 10; "stack:"]; cat [ch 10; "  f"]; cat [ch 10; "    x.go:3"]; cat [ch 10; "    > 3: three"];
+        cat [ch 10; "causes: (1 error)"]; cat [ch 10; "  [1] leaf"]].
+Proof. vm_compute. split; reflexivity. Qed.
